@@ -227,6 +227,13 @@ NESTED_LITS = [
     # deep nesting: 65, 100 and 200 groups around one literal, in parentheses, blocks and mixed with a call
     ("(" * 65 + "5_U8" + ")" * 65, [(8, 5)]), ("{" * 100 + " 7_U9 " + "}" * 100, [(9, 7)]), ("({" * 100 + " 3_U65 " + "})" * 100, [(65, 3)]),
     ("id(" * 70 + "0xff_U8" + ")" * 70, [(8, 255)]),
+    # the tokens AROUND a literal keep their meaning: a unary minus / not binds looser than a method call on the literal,
+    # and a literal may be the FIRST token of a block tail, an if branch or a match arm and be followed by an operator
+    ("-2_U8.pow(2_U8)", [(8, 252)]), ("-1_U64.wrapping_add(1_U64)", [(64, 2 ** 64 - 2)]), ("- 3_U8", [(8, 253)]), ("-(-1_U8)", [(8, 1)]), ("!1_U8", [(8, 254)]),
+    ("!0x0f_U8.rotate_left(4)", [(8, 0x0f)]), ("5_U8 - 3_U8", [(8, 2)]), ("5_U8 - -3_U8", [(8, 8)]), ("-1_U8 - -1_U8", [(8, 0)]), ("- - 1_U8", [(8, 1)]),
+    ("{ fn f(x: Uint<8, 1>) -> Uint<8, 1> { 1_U8 + x } f(2_U8) }", [(8, 3)]), ("match 0 { 0 => 0x10_U8 - 1_U8, _ => 0_U8 }", [(8, 15)]),
+    ("if true { 1_U8 + 1_U8 } else { 0_U8 * 2_U8 }", [(8, 2)]), ("{ 2_U8 * 3_U8 }", [(8, 6)]), ("(|| { 4_U8 + 1_U8 })()", [(8, 5)]), ("{ 7_U9 << 1 }", [(9, 14)]),
+    ("{ let mut a = 1_U8; a += 2_U8; { a } }", [(8, 3)]), ("loop { break 9_U8 - 1_U8; }", [(8, 8)]), ("{ 3_U65 & 1_U65 }", [(65, 1)]),
     # doc comments are literals too (#[doc = "..."]): multi-byte text at several alignments
     ("{ /** Puffergr\u00f6\u00dfe in W\u00f6rtern. */ let x = 5_U8; x }", [(8, 5)]), ("{ /** \u00e9 */ let x = 6_U8; x }", [(8, 6)]), ("{ /** a\u20ac\u20ac\u20ac\u20acbcdefg */ let x = 7_U8; x }", [(8, 7)]),
     ("{ /** \u6570\u5024\u30ea\u30c6\u30e9\u30eb */ let x = 8_U8; x }", [(8, 8)]), ("{ /** \U0001F600\U0001F600\U0001F600 1U8 */ let x = 9_U8; x }", [(8, 9)]),
